@@ -173,4 +173,7 @@ theorem captured_limiter_counterexample :
   have r5 := Reach.step _ _ r4 (Step.admitReq (perRequest := false) s4 5 1 0 rfl (by simp [s4, s3, s2, s1]) (by simp [s4, s3, s2, s1, init]))
   exact ⟨_, r5, _, List.mem_cons_self .., by decide⟩
 
+/-- regenerated from the source on every run: HandleCall validates the caller only after taking the policy read lock -/
+theorem gen_validation_under_lock : Gen.handleCallValidatesUnderLock = true := by decide
+
 end Props.C16
